@@ -80,6 +80,29 @@ const KNOWN_SLOW: [&str; 30] = [
     "((m^2147483647)^2147483647)^2147483647", "((1|m)^2147483647)^-2147483647 m", "sqrt(m^2147483647)", "1e2147483647", "1e-2147483648", "units for (m^2147483647)^2147483647",
 ];
 
+/// Exponent shapes: base ^ (exponent) for every pair.
+const POW_BASES: [&str; 8] = ["2", "m", "0", "-8", "1|2", "ans", "water", "now"];
+const POW_EXPS: [&str; 24] = [
+    "1|2", "1|3", "2|3", "-1.5", "0.5", "1|4294967296", "1|4294967295", "1|2147483648", "1|2147483647", "-1|4294967296", "1|1e30", "1e30", "-1e30",
+    "1|0.5", "log10(-1)", "1|0", "0", "-0", "2147483647", "-2147483648", "4294967296", "1|65536", "65536", "m",
+];
+/// Float specials in every context.
+const SPECIALS: [&str; 8] = ["log10(-1)", "ln(0)", "exp(1000)", "-exp(1000)", "sqrt(-1)", "asin(2)", "0.1^0.5", "ln(0) - ln(0)"];
+const SPECIAL_CTX: [&str; 26] = [
+    "{}", "{} s", "now + {} s", "now - {} s", "#2020-01-01# + {} s", "{} -> digits 3", "{} -> frac", "{} -> sci", "{} -> hex", "{} s -> hour;min", "{} m -> ft;inch",
+    "2^{}", "{}^2", "{} mod 3", "3 mod {}", "1 << {}", "{} << 1", "{} and 1", "{} °C", "300 K -> {} °C", "{} water", "mass of ({} water)", "hypot({}, 1)",
+    "{} m -> ft", "1 m -> {} ft", "{} + {}",
+];
+/// Conversion modifiers with boundary counts.
+const DIGIT_COUNTS: [&str; 12] = ["0", "1", "2147483647", "2147483648", "4294967295", "4294967296", "9223372036854775807", "9223372036854775808", "18446744073709551615", "18446744073709551616", "1e3", "-1"];
+const DIGIT_SUBJECTS: [&str; 5] = ["1|3", "1|7 m", "1e30", "0", "2^0.5"];
+const DIGIT_TAILS: [&str; 4] = ["", " base 2", " hex", " ft"];
+/// Unit-list shapes whose members can be `ans` (preset from the per-case pool, which includes zero values).
+const LIST_SHAPES: [&str; 14] = [
+    "10 s -> ans, second", "10 s -> second, ans", "10 s -> ans, ans", "10 m -> ans; ft", "ans -> ans; s", "ans -> s; ms", "0 s -> hour, min",
+    "10 s -> zerocelsius, K", "3 m -> percent; m", "10 -> percent; ppm", "10 s -> s; s; s; s; s; s; s; s", "3 m -> ft, ans, inch", "1 -> ans, 1", "10 K -> zerocelsius; K",
+];
+
 const SEED_SRC: &str = include_str!("/repo/core/tests/query.rs");
 const MANUAL: &str = include_str!("/repo/docs/rink.7.adoc");
 
@@ -270,6 +293,10 @@ impl C04 {
         }
         fams.add("grammar-directed trees with unit/substance/date/zero leaves", vec![gen.total()]);
         fams.add("inputs known to be slow", vec![KNOWN_SLOW.len() as u64]);
+        fams.add("exponent shapes", vec![POW_BASES.len() as u64, POW_EXPS.len() as u64, 2]);
+        fams.add("float specials in context", vec![SPECIALS.len() as u64, SPECIAL_CTX.len() as u64]);
+        fams.add("digit-count modifiers", vec![DIGIT_SUBJECTS.len() as u64, DIGIT_COUNTS.len() as u64, DIGIT_TAILS.len() as u64]);
+        fams.add("unit-list shapes with ans", vec![LIST_SHAPES.len() as u64]);
         fams.add("conversion targets: `3 m -> T` for every small tree T", vec![gen_t.total()]);
         let rink_bin = std::env::var("RINK_BIN").ok().filter(|p| std::path::Path::new(p).exists());
         // CLI pass over the first families (soups up to length 2-3, ladders, 1/2-char strings)
@@ -384,6 +411,19 @@ impl C04 {
         if name.starts_with("inputs known") {
             return Some(KNOWN_SLOW[d[0] as usize].to_string());
         }
+        if name.starts_with("exponent shapes") {
+            let (b, e) = (POW_BASES[d[0] as usize], POW_EXPS[d[1] as usize]);
+            return Some(if d[2] == 0 { format!("({})^({})", b, e) } else { format!("3 m -> ({})^({}) m", b, e) });
+        }
+        if name.starts_with("float specials") {
+            return Some(SPECIAL_CTX[d[1] as usize].replace("{}", &format!("({})", SPECIALS[d[0] as usize])));
+        }
+        if name.starts_with("digit-count") {
+            return Some(format!("{} -> digits {}{}", DIGIT_SUBJECTS[d[0] as usize], DIGIT_COUNTS[d[1] as usize], DIGIT_TAILS[d[2] as usize]));
+        }
+        if name.starts_with("unit-list shapes") {
+            return Some(LIST_SHAPES[d[0] as usize].to_string());
+        }
         None
     }
 
@@ -426,8 +466,10 @@ fn render_all(r: &Result<QueryReply, QueryError>) -> usize {
 }
 
 fn ans_for(idx: u64) -> Option<Number> {
-    match idx % 4 {
+    match idx % 6 {
         0 => None,
+        4 => Some(Number::new_unit(Numeric::from(0), rink_core::types::BaseUnit::new("s"))),
+        5 => Some(Number::new(Numeric::Float(f64::NAN))),
         1 => Some(Number::new_unit(Numeric::from(3), rink_core::types::BaseUnit::new("m"))),
         2 => Some(Number::new(Numeric::from_frac(1, 3))),
         _ => Some(Number::new_unit(Numeric::from(5), rink_core::types::BaseUnit::new("s"))),
@@ -496,7 +538,7 @@ impl Space for C04 {
         Meta {
             id: "C04",
             level: "exploration",
-            rule: "four exhaustive families evaluated through rink_core::eval on a long-lived context (ans preset per case from a 4-value pool), every reply rendered as Display, recursive span tree and serde_json: (1) all token sequences of length <= 3 (thorough 4) over a 68-token alphabet with one token per lexer/parser branch; (2) grammar-directed trees with unit/substance/date/zero leaves; (3) every single-character deviation (delete, duplicate, swap, insert/replace with each special character) at every position of every query string of core/tests/query.rs and the manual; (4) depth/length ladders up to 500 characters for 38 repeating units, all 1- and 2- (thorough 3-) character strings over a 160-character alphabet; (5) the same inputs through the real `rink -f -` binary in batches with a sentinel after each input. Oracle: Ok or Err within 5 s, no panic/abort/stack overflow (8 MiB)/2 GiB; canary `1 + 1` after every failure and every 1000 cases. Inputs classified expensive by a static rule (exponent/shift/power towers, >= 4-digit exponent literals) may time out but not panic. Non-trivial = the input produced a reply or an error (not a skipped index); distinct by input text".into(),
+            rule: "four exhaustive families evaluated through rink_core::eval on a long-lived context (ans preset per case from a 6-value pool incl. a zero time and NaN), every reply rendered as Display, recursive span tree and serde_json: (1) all token sequences of length <= 3 (thorough 4) over a 68-token alphabet with one token per lexer/parser branch; (2) grammar-directed trees with unit/substance/date/zero leaves; (3) every single-character deviation (delete, duplicate, swap, insert/replace with each special character) at every position of every query string of core/tests/query.rs and the manual; (4) depth/length ladders up to 500 characters for 38 repeating units, all 1- and 2- (thorough 3-) character strings over a 160-character alphabet; (5) the same inputs through the real `rink -f -` binary in batches with a sentinel after each input. Oracle: Ok or Err within 5 s, no panic/abort/stack overflow (8 MiB)/2 GiB; canary `1 + 1` after every failure and every 1000 cases. Inputs classified expensive by a static rule (exponent/shift/power towers, >= 4-digit exponent literals) may time out but not panic. Non-trivial = the input produced a reply or an error (not a skipped index); distinct by input text".into(),
             assumptions: vec![
                 "8 MiB stack and 2 GiB address space stand for the resource envelope of a chat bot / CLI".into(),
                 "`ans` before each case is a deterministic function of the case index so that every failure replays in isolation".into(),
